@@ -1,8 +1,8 @@
 CONSTANTS
-  N = 3
+  N = 1
   F = 1
   MaxLoops = 2
-  RemakeMissing = TRUE
+  RemakeMissing = FALSE
   Force = TRUE
   MaxPages = 100
   Less <- IntLess
@@ -10,5 +10,4 @@ CONSTANTS
   NoPos = 0
 SPECIFICATION Spec
 INVARIANTS TypeOK IndexSafe NoTwoBlanks PagesBound Progress LoopBound
-PROPERTIES Terminates
 CHECK_DEADLOCK FALSE
